@@ -86,3 +86,65 @@ def run_binary(exe, text, shell='bash', dest='-', extra=(), timeout=20, cwd=None
         return p.returncode, p.stdout, p.stderr, False
     except subprocess.TimeoutExpired as e:
         return -9, e.stdout or b'', e.stderr or b'', True
+
+
+WORKER = r'''
+exe=$1; mem=$2; cpu=$3
+while IFS=' ' read -r d sh dest extra; do
+  ( cd "$d" || exit 97; ulimit -v "$mem"; ulimit -t "$cpu"; ulimit -c 0
+    exec "$exe" --$sh $dest $extra g.usage >stdout 2>stderr </dev/null )
+  echo $? > "$d/rc"
+done
+'''
+
+
+def run_binary_many(exe, jobs, timeout=20, mem_kb=4 * 1024 * 1024):
+    """jobs: list of dict(text=bytes, shell=str[, dest_existing=bytes|None, to_file=bool, extra=[...],
+    collect=[file names]]).  Each job runs in its own scratch directory with the grammar in `g.usage`
+    (CPU-time limit `timeout` seconds, address-space limit).  One light bash worker per core does the
+    forking (forking from the threaded Python process is slow under load).
+    -> list of dict(rc, stdout, stderr, timed_out, dest (bytes|None after the run), files)"""
+    import shutil
+    import tempfile
+    base = tempfile.mkdtemp(prefix='vfbin', dir=paths.CACHE)
+    try:
+        nshard = max(1, min(paths.NCPU, len(jobs)))
+        lists = [[] for _ in range(nshard)]
+        for i, j in enumerate(jobs):
+            d = os.path.join(base, str(i))
+            os.makedirs(d)
+            open(os.path.join(d, 'g.usage'), 'wb').write(j['text'])
+            to_file = j.get('to_file', False)
+            if to_file and j.get('dest_existing') is not None:
+                open(os.path.join(d, 'out.script'), 'wb').write(j['dest_existing'])
+            lists[i % nshard].append('%s %s %s %s' % (d, j['shell'], 'out.script' if to_file else '-',
+                                                     ' '.join(j.get('extra', ()))))
+        wp = os.path.join(base, 'worker.sh')
+        open(wp, 'w').write(WORKER)
+        procs = []
+        for l in lists:
+            p = subprocess.Popen(['bash', wp, exe, str(mem_kb), str(timeout)], stdin=subprocess.PIPE,
+                                 stdout=subprocess.DEVNULL, stderr=subprocess.DEVNULL,
+                                 env={'PATH': os.environ['PATH'], 'RUST_BACKTRACE': '0'})
+            p.stdin.write(('\n'.join(l) + '\n').encode())
+            p.stdin.close()
+            procs.append(p)
+        for p in procs:
+            p.wait()
+        out = []
+        for i, j in enumerate(jobs):
+            d = os.path.join(base, str(i))
+
+            def rd(name):
+                fp = os.path.join(d, name)
+                return open(fp, 'rb').read() if os.path.exists(fp) else None
+            rc = rd('rc')
+            rc = int(rc.strip()) if rc and rc.strip() else -1
+            files = {f: rd(f) for f in j.get('collect', ())}
+            # SIGXCPU (24) / SIGKILL (9) after the CPU limit: 128+signal
+            out.append(dict(rc=rc, stdout=rd('stdout') or b'', stderr=rd('stderr') or b'',
+                            timed_out=rc in (128 + 24, 128 + 9), dest=rd('out.script') if j.get('to_file') else None,
+                            files=files))
+        return out
+    finally:
+        shutil.rmtree(base, ignore_errors=True)
